@@ -192,3 +192,44 @@ MUTANTS += [
         (SG, "        if cls not in cls._TrueSingleton__singleton_instances:\n",
              "        for k, v in cls._TrueSingleton__singleton_instances.items():\n            if issubclass(k, cls) and k is not cls and args:\n                return v\n        if cls not in cls._TrueSingleton__singleton_instances:\n")]),
 ]
+
+TE = "edgegraph/structure/twoendedlink.py"
+LK = "edgegraph/structure/link.py"
+VX = "edgegraph/structure/vertex.py"
+EX = "edgegraph/builder/explicit.py"
+MUTANTS += [
+    # ---------------- C01 -------------------------------------------------
+    dict(id="c01_revert_fix_d2", props=["C01"], edits=[
+        (LK, "                self._vertices = [v for v in self._vertices if v is not kill]\n", "")]),
+    dict(id="c03_replace_end_always_detaches_old", props=["C03"], edits=[
+        (TE, "        if (old is not None) and (old not in self._vertices):\n", "        if old is not None:\n")]),
+    dict(id="c03_add_to_link_drops_membership_guard", props=["C03"], edits=[
+        (VX, "            if self not in link.vertices:\n                link.add_vertex(self)\n", "            link.add_vertex(self)\n")]),
+    dict(id="c01_add_vertex_skips_callback_for_second_listing", props=["C01"], edits=[
+        (LK, "        if (new is not None) and (self not in new.links):\n            new.add_to_link(self)\n",
+             "        if (new is not None) and (self not in new.links) and (len(self._vertices) < 3):\n            new.add_to_link(self)\n")]),
+    dict(id="c03_unlink_only_first_end", props=["C03"], edits=[
+        (EX, "        link.unlink_from(v1)\n        link.unlink_from(v2)\n", "        link.unlink_from(v1)\n        if destroy:\n            link.unlink_from(v2)\n")]),
+    dict(id="c03_replace_end_mutates_before_check", props=["C03"], edits=[
+        (TE, "        old = self.vertices[idx]\n        _ = self.vertices[1]\n\n        self._vertices[idx] = new\n",
+             "        old = self.vertices[idx]\n        if new is not None:\n            new.add_to_link(self)\n        _ = self.vertices[1]\n\n        self._vertices[idx] = new\n")]),
+]
+
+MUTANTS += [
+    dict(id="c01_replace_end_old_keeps_link", props=["C01"], edits=[
+        (TE, "        if (old is not None) and (old not in self._vertices):\n            old.remove_from_link(self)\n", "")]),
+    dict(id="c01_remove_from_link_no_callback_on_crowded_link", props=["C01"], edits=[
+        (VX, "            self._links.remove(link)\n            link.unlink_from(self)\n",
+             "            self._links.remove(link)\n            if len(link.vertices) < 3:\n                link.unlink_from(self)\n")]),
+    dict(id="c01_add_to_link_skips_full_links", props=["C01"], edits=[
+        (VX, "            if self not in link.vertices:\n                link.add_vertex(self)\n",
+             "            if self not in link.vertices and len(link.vertices) < 2:\n                link.add_vertex(self)\n")]),
+    dict(id="c01_add_to_link_duplicates", props=["C01"], edits=[
+        (VX, "        if link not in self._links:\n            self._links.append(link)\n            if self not in link.vertices:\n                link.add_vertex(self)\n",
+             "        if link not in self._links or len(self._links) > 2:\n            self._links.append(link)\n            if self not in link.vertices:\n                link.add_vertex(self)\n")]),
+    dict(id="c01_unlink_from_none_end_confusion", props=["C01"], edits=[
+        (LK, "        if kill in self._vertices:\n", "        if kill in self._vertices and None not in self._vertices:\n")]),
+    dict(id="c01_lost_end_assignment_half_done", props=["C01"], edits=[
+        (TE, "        old = self.vertices[idx]\n        _ = self.vertices[1]\n\n        self._vertices[idx] = new\n",
+             "        old = self.vertices[idx]\n        self._vertices[idx] = new\n        _ = self.vertices[1]\n")]),
+]
